@@ -649,6 +649,24 @@ func generate(c *Ctx) []Replay {
 			add("where", []byte(sb.String()), []byte("msg"), genFieldsBin(r))
 		}
 	}
+	// -- systematic edge literals at every lexical position that takes a string / number / time / size / ident
+	for _, t := range lqlTemplates {
+		add("lqledge", []byte(t)) // every literal of lqlEdgeLits in this template
+	}
+	c.Note("lql edge literals", fmt.Sprintf("%d templates x %d literals", len(lqlTemplates), len(lqlEdgeLits)))
+	for _, l := range lqlEdgeLits {
+		v := strings.Trim(l, "\"'")
+		add("lqltime", []byte(v))
+		add("lqlrel", []byte(v))
+	}
+	for i := 0; i < c.N(40); i++ {
+		v := r.Bytes(r.Range(0, 6), []byte("--mhdMHD 15.eE+x\x80\xc4\xb0"))
+		if r.Chance(1, 2) {
+			v = append([]byte("-"), v...)
+		}
+		add("lqlrel", v)
+		add("lqltime", v)
+	}
 	for _, depth := range []int{10, 500, 2000} {
 		add("lql", []byte("select where "+strings.Repeat("(", depth)+"a=b"+strings.Repeat(")", depth)))
 		add("lql", []byte("select where "+strings.Repeat("not ", depth)+"a=b"))
@@ -670,6 +688,27 @@ func generate(c *Ctx) []Replay {
 		add("jsonreq", []byte(mutateText(r, s, []byte("{}[]\":,\\\x80"))))
 	}
 	return jobs
+}
+
+// '@' is the hole
+var lqlTemplates = []string{
+	"SELECT @", "SELECT @ LIMIT 1", "SELECT FROM @", "SELECT FROM a=@", "SELECT FROM a=b AND c like @",
+	"SELECT RANGE @", "SELECT RANGE [@:@]", "SELECT RANGE [@:\"-1m\"]", "SELECT RANGE [\"-1h\":@]", "SELECT RANGE [@", "SELECT RANGE @ LIMIT 1",
+	"SELECT WHERE ts > @", "SELECT WHERE ts <= @", "SELECT WHERE ts = @ AND msg contains x", "SELECT WHERE NOT (ts != @)",
+	"SELECT WHERE msg contains @", "SELECT WHERE msg like @", "SELECT WHERE fields:a = @", "SELECT WHERE fields:a like @", "SELECT WHERE lower(msg) prefix @", "SELECT WHERE upper(fields:a) suffix @",
+	"SELECT WHERE @ = 1", "SELECT WHERE @", "SELECT POSITION @", "SELECT OFFSET @", "SELECT LIMIT @", "SELECT OFFSET @ LIMIT @",
+	"TRUNCATE BEFORE @", "TRUNCATE DRYRUN a=b BEFORE @", "TRUNCATE MINSIZE @", "TRUNCATE DRYRUN a=b MINSIZE @ MAXSIZE @", "TRUNCATE MAXSIZE @", "TRUNCATE MAXDBSIZE @", "TRUNCATE @",
+	"SHOW PARTITIONS @", "SHOW PARTITIONS a=@", "SHOW PARTITIONS OFFSET @ LIMIT @", "SHOW PIPES OFFSET @", "SHOW PIPES LIMIT @", "SHOW @",
+	"DESCRIBE PARTITION @", "DESCRIBE PIPE @", "DESCRIBE @",
+	"CREATE PIPE @", "CREATE PIPE p FROM @", "CREATE PIPE p FROM a=@", "CREATE PIPE p WHERE ts < @", "CREATE PIPE p WHERE msg like @", "CREATE PIPE p FROM a=b WHERE fields:a contains @",
+	"DELETE PIPE @", "DELETE @",
+	"ts > @", "ts < @ OR ts >= @", "a = @", "{a=@}",
+}
+
+var lqlEdgeLits = []string{
+	`""`, `''`, `" "`, `'   '`, `"x"`, `'-'`, `"-"`, `"-1"`, `"-m"`, `"-1m"`, `" -1.5H "`, `"-.h"`, `"--1m"`, `"-1e999d"`,
+	`-`, `-1`, `0`, `+`, `.`, `99999999999999999999999999`, `1e999`, `18446744073709551616`, `9223372036854775808`, `-9223372036854775809`, `1G`, `99999999999T`, `1kib`,
+	`"`, `'`, `"\\"`, `{}`, `{ }`, `{a}`, `x`, `_`, ``, `tail`, `"[a"`, `"\x80"`,
 }
 
 func b2i(b bool) int {
